@@ -410,6 +410,8 @@ def c05_when_family(rng, n):
         for fname, f in _expr_forms('strict'):
             # errorOnMax declared false / true at loop start, the body flips it
             for start, flipped in ((False, True), (True, False), ('false', 'true'), ('TRUE', 'no'), (0, 1), (1, 0)):
+                if fname == 'py' and isinstance(start, str):
+                    continue            # the text rule is for text written in the pipeline / formatted from it
                 truth = (start is True or start == 1 or (isinstance(start, str) and start.lower() in ('true', '1', '1.0')))
                 for stop in (None, 'never', 'second'):
                     w = {'max': 2, 'errorOnMax': cp(f)}
@@ -691,12 +693,14 @@ def c02_jump_config_in_context_family(rng, n):
                 st['foreach'] = ['p', 'q']
             elif shape == 'retry':
                 st['retry'] = {'max': 3}
-            sets = {'jump': second, 'nxt': 't2', 'ntup': T('t2', 't3')}
+            if form == 'map-tuple':
+                second = D(groups='{ntup2}')
+            sets = {'jump': second, 'nxt': 't2'}
             groups = [['steps', [probe('A'), cp(st), probe('B')]],
                       ['t1', [probe('T1', set={'d': [[k, v] for k, v in sets.items()]}), cp(st), probe('N1')]],
                       ['t2', [probe('T2')]], ['t3', [probe('T3')]], ['ts', [probe('TS')]], ['on_success', [probe('OS')]]]
             tail = {'fmt': ['T2'], 'str': ['T2'], 'map': ['T2', 'TS'], 'map-tuple': ['T2', 'T3'], 'list': ['T2', 'T3']}[form]
-            prog = prog_of(groups, ctx={'jump': first, 'nxt': 't1', 'ntup': T('t1'), 'k': 'v'})
+            prog = prog_of(groups, ctx={'jump': first, 'nxt': 't1', 'ntup': T('t1'), 'ntup2': T('t2', 't3'), 'k': 'v'})
             prog['budget_s'] = 5
             out.append((prog, {'tags': ['A', 'T1'] + tail + ['OS'], 'outcome': 'ok', 'nerr': 0},
                         {'family': 'c02-jump-config-in-context', 'config': form, 'caller': shape}))
